@@ -381,6 +381,8 @@ fn observe_pair(p: &Pool, k1: Key, k2: Key) -> Result<(u8, String), String> {
     Ok((code, format!("inputs {ia:?}/{ib:?} outputs {oa:?}/{ob:?}")))
 }
 
+const TRIPLE_BASE: usize = 1_000_000_000;
+const PAIR_BASE: usize = 3_000_000_000;
 fn coq_key(k: Key) -> String { match k { Some(i) => format!("(Some p{i})"), None => "None".into() } }
 
 fn main() {
@@ -425,9 +427,9 @@ additionally every run sorts all 2-element multisets of the pool and checks the 
             match observe_pair(&pool, keyof(i), keyof(j)) {
                 Ok((c, how)) => {
                     m[i][j] = c; m[j][i] = match c { 0 => 2, 2 => 0, c => c };
-                    if c == 3 { bad_pairs += 1; if shown < 5 { shown += 1; sum.oracle_failures.push((format!("sweep-pair-{i}-{j}"), format!("(iv) antisymmetry: sorting {{{}, {}}} reverses the pair whatever the input order ({how})", key_name(&pool, keyof(i)), key_name(&pool, keyof(j))))); } }
+                    if c == 3 { bad_pairs += 1; if shown < 5 { shown += 1; sum.oracle_failures.push(((PAIR_BASE + i * 1000 + j).to_string(), format!("(iv) antisymmetry: sorting {{{}, {}}} reverses the pair whatever the input order ({how})", key_name(&pool, keyof(i)), key_name(&pool, keyof(j))))); } }
                 }
-                Err(e) => { sum.oracle_failures.push((format!("sweep-pair-{i}-{j}"), e)); }
+                Err(e) => { sum.oracle_failures.push(((PAIR_BASE + i * 1000 + j).to_string(), e)); }
             }
         } }
         let le = |c: u8| c == 0 || c == 1;
@@ -439,7 +441,7 @@ additionally every run sorts all 2-element multisets of the pool and checks the 
                 // show witnesses from different class combinations first
                 if shown < 12 && (shown < 4 || bad_triples % 997 == 0) { shown += 1;
                     let rel = |c: u8| if c == 0 { "<" } else { "~" };
-                    sum.oracle_failures.push((format!("sweep-triple-{i}-{j}-{k}"), format!("(iv) transitivity: ORDER BY puts {a} {r1} {b} and {b} {r2} {c} but {c} < {a}  ('<' strictly before, '~' no preference; each pair observed by sorting the 2-element dataset in both input orders)",
+                    sum.oracle_failures.push(((TRIPLE_BASE + (i * 1000 + j) * 1000 + k).to_string(), format!("(iv) transitivity: ORDER BY puts {a} {r1} {b} and {b} {r2} {c} but {c} < {a}  ('<' strictly before, '~' no preference; each pair observed by sorting the 2-element dataset in both input orders)",
                         a = key_name(&pool, keyof(i)), b = key_name(&pool, keyof(j)), c = key_name(&pool, keyof(k)), r1 = rel(m[i][j]), r2 = rel(m[j][k]))));
                 }
             }
@@ -450,6 +452,25 @@ additionally every run sorts all 2-element multisets of the pool and checks the 
         sum.bump_by("sweep:pairs", (n * (n - 1) / 2) as u64);
         sum.bump_by("sweep:intransitive-triples", bad_triples);
         println!("c14: pool of {np} terms; sweep: {} pairs, {bad_pairs} inconsistent, {bad_triples} intransitive triples", n * (n - 1) / 2);
+    }
+
+    // ---------- replay of a sweep finding (ids above TRIPLE_BASE / PAIR_BASE)
+    if let Some(id) = a.only.filter(|id| *id >= TRIPLE_BASE) {
+        let keyof = |i: usize| if i == np { None } else { Some(i) };
+        let ids: Vec<usize> = if id >= PAIR_BASE { let r = id - PAIR_BASE; vec![r / 1000, r % 1000] } else { let r = id - TRIPLE_BASE; vec![r / 1_000_000, r / 1000 % 1000, r % 1000] };
+        if ids.iter().any(|i| *i > np) { eprintln!("c14: no such sweep case"); std::process::exit(2) }
+        let mut obs = vec![];
+        for (x, y) in if ids.len() == 2 { vec![(0, 1)] } else { vec![(0, 1), (1, 2), (0, 2)] } {
+            let r = observe_pair(&pool, keyof(ids[x]), keyof(ids[y]));
+            println!("CASE {id}: sorting {{{}, {}}} in both input orders => {}", key_name(&pool, keyof(ids[x])), key_name(&pool, keyof(ids[y])),
+                match &r { Ok((c, how)) => format!("{} ({how})", ["first before second", "no preference", "second before first", "INCONSISTENT"][*c as usize]), Err(e) => e.clone() });
+            obs.push(r.map(|r| r.0).unwrap_or(3));
+        }
+        let le = |c: u8| c == 0 || c == 1;
+        let bad = obs.contains(&3) || (obs.len() == 3 && le(obs[0]) && le(obs[1]) && !le(obs[2]));
+        println!("  oracle (iv): {}", if bad { "VIOLATED (the observed comparator is not a total preorder on these keys)" } else { "ok" });
+        println!("c14: 1 cases, 1 distinct non-trivial, {} oracle failures", bad as u8);
+        return;
     }
 
     // ---------- random cases
